@@ -324,7 +324,10 @@ ExecClosure(s, c) ==
          IF act.bits = "prep" THEN
             { LET a == c.aid
                   die == r.s.actors[a].die
-                  s2 == IF die # "" THEN DTerminate([r.s EXCEPT !.actors[a].die = ""], a, die)
+                  s2 == IF die # ""
+                        THEN \* the failure takes precedence; a value returned nevertheless is just dropped
+                             LET tt == DTerminate([r.s EXCEPT !.actors[a].die = ""], a, die)
+                             IN IF r.some THEN Emit(tt, [e |-> "vdrop", aid |-> a]) ELSE tt
                         ELSE IF r.some THEN
                           \* to_ready: install the value, mark Ready, flush the held calls now
                           IF r.s.actors[a].inner = "prep"
@@ -333,9 +336,8 @@ ExecClosure(s, c) ==
                           ELSE r.s
                         ELSE r.s
               IN [s |-> s2, id |-> c.id, ops |-> r.ops, ret |-> IF r.some THEN "some" ELSE "none"] :
-              r \in {x \in RunBody(s, c, [k |-> "prep", aid |-> c.aid],
-                                    [e |-> "x", item |-> c.id, now |-> T(s.now), aid |-> c.aid, prep |-> TRUE], {TRUE, FALSE}) :
-                       ~(x.some /\ x.s.actors[c.aid].die # "")} }
+              r \in RunBody(s, c, [k |-> "prep", aid |-> c.aid],
+                            [e |-> "x", item |-> c.id, now |-> T(s.now), aid |-> c.aid, prep |-> TRUE], {TRUE, FALSE}) }
          ELSE { [s |-> DropClosures(s, <<c>>), id |-> 0, ops |-> << >>, ret |-> ""] }
     [] c.k = "term" ->
          { [s |-> DTerminate(s, c.aid, "dropped"), id |-> 0, ops |-> << >>, ret |-> ""] }
